@@ -92,7 +92,7 @@ def main():
             na.append({"property_id": pid, "reason": NOT_YET.get(pid, "check not built yet in this revision of /verif (planned in DESIGN.md section 5); nothing is claimed for it")})
     m = {
         "version": 1,
-        "setup_cmd": "cd /verif/harness && cp /repo/Cargo.lock Cargo.lock && CARGO_NET_OFFLINE=true cargo build --release --offline && CARGO_NET_OFFLINE=true CARGO_TARGET_DIR=/verif/harness/target-cli cargo build --manifest-path /repo/Cargo.toml -p duckscript_cli --no-default-features --offline",
+        "setup_cmd": "cd /verif/harness && cp /repo/Cargo.lock Cargo.lock && CARGO_NET_OFFLINE=true CARGO_TARGET_DIR=/verif/harness/target cargo build --release --offline && CARGO_NET_OFFLINE=true CARGO_TARGET_DIR=/verif/harness/target-cli cargo build --manifest-path /repo/Cargo.toml -p duckscript_cli --no-default-features --offline",
         "hooks": {
             "guard": "duckscript_verif",
             "enable": "no source hooks exist: the harness links /repo/duckscript and /repo/duckscript_sdk as path dependencies and uses only their public API",
